@@ -131,8 +131,11 @@ def gen_prefix(rng, target_id, prob="mock"):
     ev = (lambda i, s: "t%d:%d:%d" % (i, s, rng.range(10, 80))) if prob == "simple" \
         else (lambda i, s: "e%d:%d" % (i, s))
     for _ in range(rng.below(4)):
-        k = 1 + rng.below(5)
-        if k <= 2:
+        k = rng.below(6) if prob != "simple" else 1 + rng.below(5)
+        if k == 0:
+            # step limit where no track is alive but primaries are still queued, then reset
+            ops.append("q%d:%d" % (rng.choice([target_id, rng.below(50)]), rng.below(1000)))
+        elif k <= 2:
             ops.append(ev(rng.below(50), rng.below(1000)))
         elif k == 3:
             ops.append("a%d:%d:%d" % (rng.below(50), rng.below(1000), rng.range(1, 6)))
@@ -294,6 +297,11 @@ def run(ctx):
         elif prob == "mockfield":
             slots = ctx.rng.choice([3, 4, 6, 8])
             prims = ctx.rng.range(2 * slots, 3 * slots + 2)      # more primaries than slots: re-use
+        elif k % 8 == 0:
+            # few slots, more primaries than slots: a step limit can fall on an iteration after
+            # which no track is alive while primaries are still queued (`q` history ops)
+            slots = ctx.rng.choice([1, 2, 3])
+            prims = ctx.rng.range(slots + 3, slots + 12)
         else:
             slots = ctx.rng.choice([1, 2, 3, 5, 8, 13, 32])
             prims = ctx.rng.range(1, 24)
@@ -311,6 +319,9 @@ def run(ctx):
             # every re-indexing order is also run once WITHOUT history, so that a pure
             # order dependence and a pure history dependence are told apart
             hist = [] if v < len(REINDEX) and v % 2 == 0 else gen_prefix(ctx.rng, tid, prob)
+            if ti % 8 == 0 and v % 2 == 1:
+                hist = [h for h in hist if h == "w"] + ["q%d:%d" % (ctx.rng.below(50), ctx.rng.below(1000))] \
+                    + [h for h in hist if h != "w"]
             jobs.append((ti, "reindex", cfg, hist + [tgt]))
         jobs.append((ti, "init_charge", base + " order=init_charge", [tgt]))
         for v in range(2 if quick else 5):
@@ -322,6 +333,7 @@ def run(ctx):
         outs = list(ex.map(lambda j: run_event(exe, j[2], j[3]), jobs))
     ref = {}
     fam_stats = {}
+    qcuts = {"cuts": 0, "cuts_with_alive0_queued": 0}
 
     def order_of(cfg):
         return dict(w.split("=", 1) for w in cfg.split())["order"]
@@ -335,6 +347,10 @@ def run(ctx):
             failing.append((ti, cls, cfg, script, "harness: " + " ".join(out[-2:])[:300]))
             continue
         seen_scripts.add((cfg, tuple(script)))
+        for l_ in out:
+            if l_.startswith("qcut "):
+                qcuts["cuts"] += 1
+                qcuts["cuts_with_alive0_queued"] += " hit=1" in l_
         kvs = dict(w.split("=", 1) for w in got.split() if "=" in w)
         if cls != "control":
             fam_stats.setdefault(prob, {"runs": 0, "multisec_iterations": 0, "looping_hw_max": 0,
@@ -389,6 +405,11 @@ def run(ctx):
                       "no replay under a re-indexing order had an iteration in which two or more "
                       "slots produced secondaries: the order-independence of secondary track/parent "
                       "ids was not exercised", {"families": fam_stats}, found_input=False)
+    if not failing and qcuts["cuts_with_alive0_queued"] == 0:
+        ctx.violation("coverage:no-cut-with-queued-primaries",
+                      "no history contained an event stopped where no track was alive while "
+                      "primaries were still queued (followed by CoreState::reset)",
+                      {"qcuts": qcuts}, found_input=False)
     if not failing and ffld.get("looping_hw_max", 0) == 0:
         ctx.violation("coverage:no-looping-counters",
                       "no field replay made a per-slot looping counter non-zero: re-use of a slot "
@@ -407,7 +428,7 @@ def run(ctx):
         "reindex_ops": len(ops), "corpus_ops": n_corpus, "reindex_diverging": len(diverged),
         "event_targets": [dict(zip(["prob", "slots", "prims", "event", "seed"], t)) for t in targets],
         "event_runs": len(jobs), "event_comparisons": n_cmp, "event_mismatches": len(failing),
-        "families": fam_stats,
+        "families": fam_stats, "step_limit_cuts": qcuts,
         "controls_that_differ": n_diff_control, "controls": len(targets),
         "samples": [ops[n_corpus], "run " + jobs[1][2] + " script=" + ",".join(jobs[1][3])],
         "correspondence_broken": broken,
